@@ -468,6 +468,8 @@ impl State {
         ) = self.inner
         {
             if force || rotation_state.roll_state.rotation_necessary() {
+                #[cfg(feature = "verif_hooks")]
+                crate::verif_hooks::point("rotate.begin", Some(current_path)).ok();
                 let infix = match rotation_state.naming_state {
                     NamingState::Timestamps {
                         current_timestamp: ref mut ts,
@@ -506,6 +508,8 @@ impl State {
                 *current_path = new_path;
 
                 rotation_state.roll_state.reset_size_and_date(current_path);
+                #[cfg(feature = "verif_hooks")]
+                crate::verif_hooks::point("rotate.mounted", Some(current_path)).ok();
 
                 list_and_cleanup::remove_or_compress_too_old_logfiles(
                     rotation_state.o_cleanup_thread_handle.as_ref(),
@@ -532,7 +536,11 @@ impl State {
             });
 
         if let Inner::Active(ref mut o_rotation_state, ref mut log_file, ref _path) = self.inner {
+            #[cfg(feature = "verif_hooks")]
+            crate::verif_hooks::point("write", Some(_path))?;
             log_file.write_all(buf)?;
+            #[cfg(feature = "verif_hooks")]
+            crate::verif_hooks::point("write.post", Some(_path)).ok();
 
             if let Some(ref mut rotation_state) = o_rotation_state {
                 rotation_state.roll_state.increase_size(buf.len() as u64);
@@ -543,10 +551,14 @@ impl State {
 
     pub fn reopen_outputfile(&mut self) -> Result<(), std::io::Error> {
         if let Inner::Active(_, ref mut file, ref p_path) = self.inner {
+            #[cfg(feature = "verif_hooks")]
+            crate::verif_hooks::point("reopen", Some(p_path))?;
             match OpenOptions::new().create(true).append(true).open(p_path) {
                 Ok(f) => {
                     // proved to work on standard windows, linux, mac
                     *file = Box::new(f);
+                    #[cfg(feature = "verif_hooks")]
+                    crate::verif_hooks::point("open.post", Some(p_path)).ok();
                 }
                 Err(_unexpected_error) => {
                     // there are environments, like github's windows container,
@@ -661,12 +673,16 @@ fn open_log_file(
         self::platform::create_symlink_if_possible(link, &path);
     }
 
+    #[cfg(feature = "verif_hooks")]
+    crate::verif_hooks::point("open", Some(&path))?;
     let logfile = OpenOptions::new()
         .write(true)
         .create(true)
         .append(config.append)
         .truncate(!config.append)
         .open(&path)?;
+    #[cfg(feature = "verif_hooks")]
+    crate::verif_hooks::point("open.post", Some(&path)).ok();
 
     let w: Box<dyn Write + Send> = if let Some(capacity) = config.write_mode.buffersize() {
         Box::new(BufWriter::with_capacity(capacity, logfile))
@@ -722,6 +738,8 @@ pub(super) fn start_async_fs_writer(
                     match receiver.recv() {
                         Err(_) => break,
                         Ok(mut message) => {
+                            #[cfg(feature = "verif_hooks")]
+                            crate::verif_hooks::point("async.recv", None).ok();
                             let mut state = am_state.lock().unwrap(/* ok */);
                             match message.as_ref() {
                                 ASYNC_FLUSH => {
@@ -807,12 +825,16 @@ mod platform {
     fn unix_create_symlink(link: &Path, logfile: &Path) {
         if std::fs::symlink_metadata(link).is_ok() {
             // remove old symlink before creating a new one
+            #[cfg(feature = "verif_hooks")]
+            crate::verif_hooks::point("symlink.remove", Some(link)).ok();
             if let Err(e) = std::fs::remove_file(link) {
                 eprint_err(ErrorCode::Symlink, "cannot delete symlink to log file", &e);
             }
         }
 
         // create new symlink
+        #[cfg(feature = "verif_hooks")]
+        crate::verif_hooks::point("symlink.create", Some(link)).ok();
         if let Err(e) = std::os::unix::fs::symlink(logfile, link) {
             eprint_err(ErrorCode::Symlink, "cannot create symlink to logfile", &e);
         }
